@@ -20,5 +20,8 @@ with open(os.path.join(ROOT, 'seeded', 'INDEX.md'), 'w') as f:
     f.write('| seed | property | change | needs to manifest | detected by (quick tier) | first violation key | history |\n|---|---|---|---|---|---|---|\n')
     for r in rows:
         f.write('| %s | %s | %s | %s | %s | %s | %s |\n' % r)
-    f.write('\n%d seeds, %d detected by the quick tier of their property\'s check.\n' % (len(rows), sum(1 for r in rows if r[4] != '**missed**')))
+    own = sum(1 for r in rows if r[1] and r[1] in r[4])
+    other = sum(1 for r in rows if r[4] != '**missed**' and not (r[1] and r[1] in r[4]))
+    f.write('\n%d seeds: %d detected by the quick tier of their own property\'s check, %d only by another property\'s check (see history), %d missed.\n'
+            % (len(rows), own, other, sum(1 for r in rows if r[4] == '**missed**')))
 print(len(rows), 'seeds')
